@@ -415,6 +415,22 @@ func cmdCheck(repo, root string, args []string) int {
 			asm = append(asm, a)
 		}
 	}
+	if prop == "C12" {
+		// strings are values in the model; that is sound as long as no string shares mutable memory, i.e. the repository
+		// makes no unsafe conversion. Scanned on every run and reported here (an import of unsafe is an unchecked
+		// assumption, not a violation).
+		var us []string
+		for _, p := range w.Pkgs {
+			if _, ok := p.Imports["unsafe"]; ok {
+				us = append(us, p.PkgPath)
+			}
+		}
+		if len(us) == 0 {
+			asm = append(asm, "A-STR: strings are immutable values (scan of this tree: no package of the repository imports unsafe); strings.Builder.String and bytebufferpool String() are assumed to return strings that later writes cannot change")
+		} else {
+			asm = append(asm, "A-STR: strings are treated as immutable values although these packages import unsafe (NOT checked): "+strings.Join(us, ", "))
+		}
+	}
 	sort.Strings(asm)
 	samples := []interface{}{}
 	for i, g := range groups {
